@@ -144,4 +144,85 @@ func HarnessC08XRD() {
 	zz.Observe("stopped", eng.stopped, zzInstances(s))
 }
 
+// HarnessC08XRDSchedule: a deleted XRD followed through a schedule of up to
+// four steps, each either a reconcile (cut short by an API failure at any
+// call, or not) or a third party (the composite controller) removing the
+// finalizer that holds one of the instances. The same ordering facts hold at
+// every instant of every schedule.
+//
+//gosym:harness thorough
+//gosym:cover crd-deleted finalizer-removed third-party-step
+func HarnessC08XRDSchedule() {
+	s := kube.New()
+	s.Register(&v1.CompositeResourceDefinition{}, &v1.CompositeResourceDefinitionList{}, "apiextensions.crossplane.io", "CompositeResourceDefinition")
+	s.Register(&extv1.CustomResourceDefinition{}, &extv1.CustomResourceDefinitionList{}, "apiextensions.k8s.io", "CustomResourceDefinition")
+
+	d := zzXRD()
+	d.Finalizers = []string{finalizer}
+	now := metav1.Now()
+	d.DeletionTimestamp = &now
+	s.Put(d)
+	crd := &extv1.CustomResourceDefinition{ObjectMeta: metav1.ObjectMeta{Name: zzXRDName}}
+	crd.OwnerReferences = []metav1.OwnerReference{{APIVersion: "apiextensions.crossplane.io/v1", Kind: "CompositeResourceDefinition", Name: zzXRDName, UID: zzXRDUID, Controller: ptr.To(true)}}
+	s.Put(crd)
+	nInst := 1 + zz.Choose("instances", 2)
+	for i := 0; i < nInst; i++ {
+		x := &kunstructured.Unstructured{Object: map[string]any{}}
+		x.SetAPIVersion("example.org/v1")
+		x.SetKind("XThing")
+		x.SetName("x" + string(rune('0'+i)))
+		x.SetFinalizers([]string{"composite.apiextensions.crossplane.io"})
+		s.Put(x)
+	}
+
+	eng := &zzEngine{s: s}
+	crdExisted := true
+	released := false
+	s.OnMutate = func() {
+		if crdExisted && !s.Exists("apiextensions.k8s.io", "CustomResourceDefinition", "", zzXRDName) {
+			zz.Cover("crd-deleted")
+			zz.Assert("crd-deleted-only-after-every-instance-is-gone", zzInstances(s) == 0)
+			zz.Assert("crd-deleted-only-after-controller-stopped", eng.stopped)
+			crdExisted = false
+		}
+		xd := &v1.CompositeResourceDefinition{}
+		if !released && (!s.Peek("", zzXRDName, xd) || len(xd.Finalizers) == 0) {
+			released = true
+			zz.Cover("finalizer-removed")
+			zz.Assert("xrd-finalizer-removed-only-after-crd-gone-or-never-ours", !zzCRDOurs(s))
+		}
+	}
+	r := NewReconciler(NewClientApplicator(s), WithControllerEngine(eng))
+	for step := 0; step < 4 && !released; step++ {
+		id := string(rune('0' + step))
+		act := zz.Choose("step"+id+".action", 1+nInst)
+		if act == 0 {
+			s.Faulted = false
+			s.FaultAt = -1
+			if k := zz.Choose("step"+id+".fault.at", 8); k > 0 {
+				s.FaultAt = s.Calls() + k - 1
+				s.FaultKind = 1 + zz.Choose("step"+id+".fault.kind", 2)
+			}
+			wasStopped := eng.stopped
+			_, _ = r.Reconcile(context.Background(), reconcile.Request{NamespacedName: types.NamespacedName{Name: zzXRDName}})
+			s.FaultAt = -1
+			if eng.stopped && !wasStopped {
+				zz.Assert("controller-stopped-only-after-instances-gone-or-crd-not-ours", eng.instancesAtStop == 0 || !eng.crdOursAtStop)
+			}
+			continue
+		}
+		// the composite controller lets go of instance act-1
+		zz.Cover("third-party-step")
+		name := "x" + string(rune('0'+act-1))
+		x := &kunstructured.Unstructured{Object: map[string]any{}}
+		x.SetAPIVersion("example.org/v1")
+		x.SetKind("XThing")
+		if s.Peek("", name, x) {
+			x.SetFinalizers(nil)
+			_ = s.Update(context.Background(), x)
+		}
+	}
+	zz.Observe("end", released, eng.stopped, zzInstances(s))
+}
+
 var _ = engine.WatchTypeClaim
